@@ -103,7 +103,7 @@ def gen_scenario(rng):
         t += gap()
     tail = rng.choice([SETTLE, SETTLE, 600000, 5000000])
     return dict(nh=nh, svcs=svcs, browsers=browsers, ops=ops, end=t + tail, seed=rng.randrange(1 << 30), dup=rng.choice([0.0, 0.1, 0.3]),
-                drop=rng.choice([None, 'pick']), lookups=True)
+                drop=rng.choice([None, 'pick']), lookups=True, reuse=rng.random() < 0.5)
 
 
 def run_scenario(sc, drop_index=None):
@@ -192,7 +192,13 @@ def run_scenario(sc, drop_index=None):
                         browsers.append(AsyncServiceBrowser(hosts[b['host']].zc, list(b['types']), listener=mk_listener(arg, b['host'])))
                     elif kind == 'register':
                         s = current[arg]
-                        infos[arg] = c03.mk_info(s)
+                        if arg in infos and sc.get('reuse'):
+                            # the application registers the very object it unregistered, after changing a field in place
+                            s = dict(s, port=s['port'] + 7)
+                            current[arg] = s
+                            infos[arg].port = s['port']
+                        else:
+                            infos[arg] = c03.mk_info(s)
                         versions.setdefault(s['name'], []).append((sim.now - t0, dict(s)))
                         await (await hosts[s['host']].zc.async_register_service(infos[arg]))
                     elif kind == 'update':
@@ -420,6 +426,10 @@ def run(ctx):
     corpus.append(dict(nh=2, svcs=[s0], browsers=[dict(host=1, types=[TYPES[0]])],
                        ops=[(1000, 'register', 0), (5000, 'unregister', 0), (9000, 'update', 0), (5000000, 'browse', 0)], end=5060000, seed=9, dup=0.0,
                        drop=None, lookups=True))
+    # the same ServiceInfo object registered, unregistered, changed in place (port) and registered again; a browser that joins later
+    corpus.append(dict(nh=3, svcs=[s0], browsers=[dict(host=1, types=[TYPES[0]]), dict(host=2, types=[TYPES[0]])],
+                       ops=[(500, 'browse', 0), (1000, 'register', 0), (8000, 'unregister', 0), (12000, 'register', 0), (40000, 'browse', 1)],
+                       end=70000, seed=11, dup=0.0, drop=None, lookups=True, reuse=True))
     for k in range(n + len(corpus)):
         sc = corpus[k] if k < len(corpus) else gen_scenario(rng)
         runs, fail = explore(ctx, sc, 10 ** 6 if sc['drop'] == 'all' else budget)
